@@ -82,9 +82,12 @@ func agreeRun(cl, sv agreeConn, a, b net.Conn, streams [][]byte) (cerr, serr err
 			iw.Add(1)
 			go func() {
 				defer iw.Done()
-				// written in uneven pieces
+				// written in uneven pieces; the largest stream in one Write (fragments of the maximal record size)
 				for off := 0; off < len(s); {
 					n := 1 + (off*7+13)%4000
+					if len(s) >= 60000 {
+						n = len(s)
+					}
 					if off+n > len(s) {
 						n = len(s) - off
 					}
